@@ -8,6 +8,7 @@ import (
 	"strings"
 
 	"golang.org/x/tools/go/ssa"
+	"golang.org/x/tools/go/ssa/ssautil"
 )
 
 // GUARD(eoi-skip): the token-skipping loop of error recovery (skipBrokenCode, generated and the
@@ -774,5 +775,80 @@ func ruleDECLONCE(c *Ctx) {
 	}
 	if n < 2 {
 		c.add(rule, "count:", token.NoPos, CountDropped, true, "only %d in-loop emissions of ':=' found in package gen (2 in goParserAction confirmed by hand)", n)
+	}
+}
+
+// INTERN(compare): IntSliceSet.Insert / IntSliceMap.Get intern int slices under a 64-bit hash
+// (hash*31 + v). Equal hashes do not mean equal keys, so an *existing* entry may be returned
+// only on the true edge of SliceEqual(key, entry.key); every other return hands out something
+// fresh (the new index s.size, the newly allocated value). A hash-only shortcut merges distinct
+// keys - in the DFA minimiser, distinct state signatures, i.e. states that behave differently.
+func ruleINTERNCOMPARE(c *Ctx) {
+	const rule = "INTERN(compare)"
+	n := 0
+	funcs := c.SrcFuncs("util/container")
+	// instantiations of the generic IntSliceMap (the generic body itself has no SSA)
+	if cp := c.SSAPkg("util/container"); cp != nil {
+		seenOrigin := map[*ssa.Function]bool{}
+		for fn := range ssautil.AllFunctions(c.Prog()) {
+			if o := fn.Origin(); o != nil && o.Pkg == cp && fn.Blocks != nil && !seenOrigin[o] {
+				seenOrigin[o] = true
+				funcs = append(funcs, fn)
+			}
+		}
+	}
+	for _, f := range funcs {
+		// a hash loop: multiplication by 31
+		hashes := false
+		for _, b := range f.Blocks {
+			for _, ins := range b.Instrs {
+				if bo, ok := ins.(*ssa.BinOp); ok && bo.Op == token.MUL {
+					if k, ok := bo.Y.(*ssa.Const); ok && k.Value != nil && k.Value.ExactString() == "31" {
+						hashes = true
+					}
+				}
+			}
+		}
+		if !hashes {
+			continue
+		}
+		ord := map[string]int{}
+		for _, b := range f.Blocks {
+			ret, ok := b.Instrs[len(b.Instrs)-1].(*ssa.Return)
+			if !ok || len(ret.Results) != 1 {
+				continue
+			}
+			n++
+			key := ordKey(ord, ssaFuncKey(f)+":return")
+			compared := false
+			for _, g := range flattenConds(governing(b)) {
+				if call, ok := g.V.(*ssa.Call); ok && g.Pol {
+					if cal := call.Call.StaticCallee(); cal != nil && cal.Name() == "SliceEqual" {
+						compared = true
+					}
+				}
+			}
+			v := ret.Results[0]
+			fresh := false
+			switch x := v.(type) {
+			case *ssa.Call:
+				fresh = x.Call.StaticCallee() == nil // the allocator callback
+			case *ssa.UnOp:
+				if fa, ok := x.X.(*ssa.FieldAddr); ok && fieldName(fa.X.Type(), fa.Field) == "size" {
+					fresh = true
+				}
+			}
+			switch {
+			case compared:
+				c.Ok(rule, key, ret.Pos(), "an existing entry is returned on the true edge of SliceEqual(key, entry.key)")
+			case fresh:
+				c.Ok(rule, key, ret.Pos(), "a fresh entry is returned (%s)", normalizePhi(vpath(v)))
+			default:
+				c.Bad(rule, key, ret.Pos(), "%s returns %s without having compared the keys: two different keys with the same hash are interned as one", f.Name(), normalizePhi(vpath(v)))
+			}
+		}
+	}
+	if n < 4 {
+		c.add(rule, "count:", token.NoPos, CountDropped, true, "only %d returns of hashing containers found in util/container (IntSliceSet.Insert and IntSliceMap.Get have two each)", n)
 	}
 }
